@@ -144,6 +144,13 @@ class Check:
     def run(self, group, harness, max_paths=512, always=False):
         """explore all paths of `harness`; obligations get the prefix `<prop>/<group>/`"""
         import re as _re
+        inc = getattr(self, "_include", None)
+        if inc is not None:
+            # leaf contracts of another property's harness that this property's proof relies on (Check.include)
+            if not _re.search(inc[1], group) and not always:
+                return []
+            if not always:
+                group = "%s/%s" % (inc[0], group)
         if getattr(self, "only", None) and not always and not _re.search(self.only, group):
             return []
         self.interp.hints = None
@@ -190,6 +197,19 @@ class Check:
                 if ob.meta and ob.meta.get("parent"):
                     ob.meta["parent"] = rename.get(ob.meta["parent"], ob.meta["parent"])
         return live
+
+    def include(self, module, pattern, label):
+        """run the groups of another property's harness whose names match `pattern` under the prefix `label`: the contracts
+        this property's obligations instantiate are then discharged by this check as well (a change that breaks such a
+        contract is reported by every property whose proof uses it)"""
+        keep = (list(self.assumptions), list(self.configs), list(self.lemmas), list(self.bounded), list(self.native_results))
+        self._include = (label, pattern)
+        try:
+            module.build(self)
+        finally:
+            self._include = None
+            # the included harness's own narrative (assumptions, bounded stand-ins, native lemmas) stays with its property
+            self.assumptions[:], self.configs[:], self.lemmas[:], self.bounded[:], self.native_results[:] = keep
 
     def native(self, name, ok, detail="", replay=None, backend="exact-rational"):
         """record an obligation decided natively (exact rational arithmetic on values
@@ -262,6 +282,10 @@ class Check:
                 self.notes.append("attempted, not discharged (not counted): %s" % name)
                 continue
             if hints and (any(status.get(h) != "proved" for h in hints) or r["status"] != "proved"):
+                if r["status"] == "refuted" and isinstance(r.get("info"), dict) and (m.get("replay")):
+                    # refuted although a ghost hint it may rely on failed: only a model that replays on the real code counts
+                    violations.append((name, ob, names, dict(r, require_repro=True)))
+                    continue
                 tiebreak.append((name, ob, names, r))
                 continue
             if r["status"] == "proved":
@@ -323,6 +347,13 @@ class Check:
                 known_hits.append((name, kf))
                 continue
             path, reproduced = self.write_replay(name, ob, names, r)
+            if r.get("require_repro") and not reproduced:
+                bad = self.tie_break(name, ob)
+                if bad is None:
+                    undecided.append((name, {"info": "refuted under an unproved ghost hint; the model does not replay on the real code"}))
+                    continue
+                r = dict(r, tiebreak_vals=bad)
+                path, reproduced = self.write_replay(name, ob, names, r)
             nviol += 1
             suffix = "" if reproduced else " no-failing-input-found"
             out_lines.append("VIOLATION property=%s replay=%s obligation=%s%s" % (self.prop, path, name, suffix))
